@@ -7,7 +7,7 @@ from ..runner import Case, Property
 class C19(Property):
     id = "C19"
     lean_module = "RosuModel.Props.C19Full"   # imports Props/C19Curve.lean (→ Props/C19Lipschitz.lean, Props/C19.lean, Props/C16Surplus.lean) and Props/C19Ieee.lean; namespace Rosu.C19
-    theorem_modules = ['RosuModel.Props.C19Curve', 'RosuModel.Props.C19Ieee', 'RosuModel.Props.C19IeeePos', 'RosuModel.Props.C19IeeeBound', 'RosuModel.Props.C19IeeeErr', 'RosuModel.Props.C19IeeeSearch', 'RosuModel.Props.C19IeeeFinite', ('RosuModel.Lemmas.FloatErrRange32', 'Rosu.FErr'), 'RosuModel.Props.C19IeeeLipschitz', 'RosuModel.Props.C19DecodedLinear']   # files whose top-level theorems are all audited
+    theorem_modules = ['RosuModel.Props.C19Curve', 'RosuModel.Props.C19Ieee', 'RosuModel.Props.C19IeeePos', 'RosuModel.Props.C19IeeeBound', 'RosuModel.Props.C19IeeeErr', 'RosuModel.Props.C19IeeeSearch', 'RosuModel.Props.C19IeeeFinite', ('RosuModel.Lemmas.FloatErrRange32', 'Rosu.FErr'), 'RosuModel.Props.C19IeeeLipschitz', 'RosuModel.Props.C19DecodedLinear', 'RosuModel.Props.C19IeeeFinal', ('RosuModel.Lemmas.FloatErrRangeSqrt', 'Rosu.FErr')]   # files whose top-level theorems are all audited
     namespace = "Rosu.C19"
     design_ref = "5.19"
     level_text = (
@@ -36,7 +36,9 @@ class C19(Property):
         "Model tied to the code bit-for-bit "
         "(positions, distances, indices, also for NaN / unsorted lengths).")
     technique = "Lean 4 proof (generic arithmetic, structural) + bit-exact differential correspondence + independent oracle"
-    required_theorems = ["vertex_chord_sum_float32", "chordBooked_natural", "chordBooked_natural_zero", "idxOfDist_mono_float", "position_anchor_float32", "position_same_bracket_float32",
+    required_theorems = ["seglen_bounded", "cumLens_finite", "natural_total_finite_float", "linear_curve_position_err_float32", "position_lipschitz_float32_uncond",
+                         "positionAt_lipschitz_float32_uncond", "degSlack_lt",
+                         "vertex_chord_sum_float32", "chordBooked_natural", "chordBooked_natural_zero", "idxOfDist_mono_float", "position_anchor_float32", "position_same_bracket_float32",
                          "position_lipschitz_gen_float32", "position_lipschitz_float32", "position_lipschitz_degenerate_float32", "positionAt_lipschitz_float32", "demo_chordBooked",
                          "linear_path_vertices", "natural_lengths_sorted_float", "linear_curve_shape", "linear_curve_position_err_float32_partial", "hbf_iff_all_finite", "linCps_curve",
                          "segFinite_statement_false", "segFinite_of_bounded", "weight_finite", "coordInterp_finite", "segFinite_of_curve", "positionAt_dist_err_float32_nofin",
@@ -59,6 +61,12 @@ class C19(Property):
                          # Props/C19Ieee.lean: the order part of PosLaws for the driver's Float; the search finds an exact hit for IEEE doubles
                          "posLaws_order_float", "bsLoop_hit_ieee", "idxOfDist_hit_ieee", "idxOfDist_hit_float"]
     partial_theorems = {
+        "positionAt_lipschitz_float32_uncond / linear_curve_position_err_float32": "Props/C19IeeeFinal.lean, Lemmas/FloatErrRangeSqrt.lean (sixth session, wave 10): the last two side hypotheses are REMOVED. "
+            "sqrt_finite_float (the square root of a finite non-negative double is finite, −0 included), sqrt_le_float, toRat_abs_float, toRat_eps_float, abs_sub_le_eps_toRat (|d0 ⊖ d1| ≤ EPSILON implies "
+            "|d0 − d1| ≤ 2^-52(1+2^-52); the factor cannot be dropped: kernel witness EPSILON and −2^-110). (i) seglen_bounded, cumLens_finite, natural_total_finite_float: for finite Bounded19 vertices and at "
+            "most 2^40 of them no natural cumulative length overflows; hence linear_curve_position_err_float32 = the recorded full statement, no `hbf`. (ii) position_lipschitz_float32_uncond / "
+            "positionAt_lipschitz_float32_uncond: the arc-length clause across segments with NO non-degeneracy hypothesis, the slack increased by degSlack·(1+κ) with degSlack = 2^-52(1+2^-52) < 10^-15. What "
+            "stays a hypothesis of the Lipschitz theorems: ChordBooked (discharged for natural lengths with optimized_len = 0)",
         "positionAt_lipschitz_float32 / position_lipschitz_float32": "Props/C19IeeeLipschitz.lean (sixth session, wave 9): the ARC-LENGTH CLAUSE ON IEEE FLOATS, across segments. vertex_chord_sum_float32 (telescoping: "
             "|x_j − x_i| ≤ (L_j − L_i)(1+κ) under ChordBooked κ), chordBooked_natural / chordBooked_natural_zero (natural lengths satisfy ChordBooked 2^-20 under the side conditions of chord_le_booked_float), "
             "idxOfDist_mono_float (the search is monotone, order facts only), position_anchor_float32, position_same_bracket_float32, and position_lipschitz_float32: for d ≤ d' in range the two positions "
